@@ -27,7 +27,7 @@ ASSUMPTIONS = ['the oracle is a freshly constructed real monitor fed only the po
                'only supported specifications are generated (unsupported ones belong to C17)']
 REAL = common.REAL_ALL
 STUBS = common.STUBS_ALL
-PROBES = ['reset_before_first_update', 'double_reset', 'second_reset_after_more_updates', 'with_subspecs', 'pastified', 'dense_time', 'counter_nonzero_before_reset',
+PROBES = ['interface_aware_semantics', 'reset_before_first_update', 'double_reset', 'second_reset_after_more_updates', 'with_subspecs', 'pastified', 'dense_time', 'counter_nonzero_before_reset',
           'reset_matters', 'poisoned_update_did_not_raise', 'only_failed_updates_before_reset', 'reset_before_pastify', 'failed_update_right_after_a_reset', 'reconfigured_before_reset']
 INTERLEAVING_MEASURE = 'distinct (time domain, reset position, pre-history length, double-reset) tuples'
 
@@ -112,7 +112,9 @@ def gen(rng, tier):
     poison = {'at': (rng.choice([0, 0, rng.randrange(m)]) if m else 0), 'var': pv} if rng.random() < 0.45 else None
     return {'reconf': reconf, 'early': rng.random() < 0.4, 'poison': poison, 'poison_mid': rng.random() < 0.5, 'dense': dense, 'cls': cls, 'vars': vars_, 'ast': ast, 'modular': modular, 'pastify': pastify, 'pre': pre,
             'post': post, 'double_at': rng.randint(0, m), 'text': None, 'spell_seed': rng.randrange(1 << 30), 'mid_len': mid_len,
-            'only_positions': only_positions}
+            'only_positions': only_positions,
+            # an interface-aware semantics (combined classes only), for the monitor that is reset and the fresh one alike
+            'iastl': (common.draw_iastl(rng, vars_, ast, p=0.5) if cls in ('dt', 'ct') else None)}
 
 
 def spec_desc(sc):
@@ -121,6 +123,9 @@ def spec_desc(sc):
     bp = common.dense_bounds if dense else None
     sp = sg.Spelling(random.Random(sc.get('spell_seed', 0)))
     desc = {'cls': sc['cls'], 'vars': common.var_decls(sc['vars']), 'pastify': bool(sc.get('pastify'))}
+    if sc.get('iastl') and sc['cls'] in ('dt', 'ct'):
+        desc['semantics'] = sc['iastl']['sem']       # the monitor that is reset and the fresh one alike
+        desc['io'] = dict(sc['iastl']['io'])
     mod = sc.get('modular')
     if mod:
         subs = ['%s = %s;' % (n, sg.to_text(a, sp, bp)) for n, a in mod['defs']]
@@ -352,6 +357,8 @@ def run(sc):
         r.probes['with_subspecs'] += 1
     if sc.get('pastify'):
         r.probes['pastified'] += 1
+    if sc.get('iastl') and sc['cls'] in ('dt', 'ct'):
+        r.probes['interface_aware_semantics'] += 1
     if dense:
         r.probes['dense_time'] += 1
     if matters:
